@@ -255,7 +255,7 @@ var Faults = []string{
 	"dup-param-inline", "dup-param-via-ref", "dup-param-two-refs", "two-body-params", "two-body-params-ref", "body-and-formdata",
 	"array-no-items-param", "array-no-items-header", "array-no-items-nested-items", "array-no-items-body-schema", "array-no-items-response-schema",
 	"required-undefined-property", "required-undefined-beside-scalar-additionalProperties", "unresolvable-ref-definition", "unresolvable-ref-parameter", "unresolvable-ref-response",
-	"dup-inherited-property", "circular-ancestry-direct", "circular-ancestry-indirect",
+	"dup-inherited-property", "dup-inherited-property-beside-allof", "circular-ancestry-direct", "circular-ancestry-indirect", "circular-ancestry-pure-ref-cycle",
 	"overlapping-paths", "invalid-pattern-param", "invalid-pattern-header", "invalid-pattern-schema", "invalid-pattern-items",
 	"missing-paths", "empty-placeholder",
 }
@@ -508,6 +508,30 @@ func (g *SpecGen) Apply(fault string) (applied bool, strictOnly bool) {
 		}
 		defs["Child"+g.Tag] = map[string]any{"allOf": []any{map[string]any{"$ref": "#/definitions/" + base}, map[string]any{"type": "object", "properties": map[string]any{pn: map[string]any{"type": "string"}}}}}
 		return true, false
+	case "dup-inherited-property-beside-allof":
+		// the child declares the inherited name in its own "properties", beside (not inside) allOf
+		base := g.defNames[0]
+		bd := defs[base].(map[string]any)
+		props, ok := bd["properties"].(map[string]any)
+		if !ok {
+			return false, false
+		}
+		var pn string
+		for _, k := range sortedKeys(props) {
+			pn = k
+			break
+		}
+		defs["Child"+g.Tag] = map[string]any{"allOf": []any{map[string]any{"$ref": "#/definitions/" + base}}, "properties": map[string]any{pn: map[string]any{"type": "string"}, "ownc" + g.Tag: map[string]any{"type": "integer"}}}
+		return true, false
+	case "circular-ancestry-pure-ref-cycle":
+		// a definition inherits from a cycle of definitions which are nothing but a $ref (length 1 to 3)
+		a := "CA" + g.Tag
+		n := g.R.Range(1, 3)
+		for i := 0; i < n; i++ {
+			defs[fmt.Sprintf("CR%d%s", i, g.Tag)] = map[string]any{"$ref": fmt.Sprintf("#/definitions/CR%d%s", (i+1)%n, g.Tag)}
+		}
+		defs[a] = map[string]any{"allOf": []any{map[string]any{"$ref": "#/definitions/CR0" + g.Tag}, map[string]any{"type": "object", "properties": map[string]any{"pa": map[string]any{"type": "string"}}}}}
+		return true, false
 	case "circular-ancestry-direct":
 		a, b := "CA"+g.Tag, "CB"+g.Tag
 		defs[a] = map[string]any{"allOf": []any{map[string]any{"$ref": "#/definitions/" + b}, map[string]any{"type": "object", "properties": map[string]any{"pa": map[string]any{"type": "string"}}}}}
@@ -660,4 +684,82 @@ func (g *SpecGen) Ops() [][2]string {
 	}
 	sort.Slice(out, func(i, j int) bool { return out[i][0]+out[i][1] < out[j][0]+out[j][1] })
 	return out
+}
+
+// Enrichments are legal additions to a specification: every documented rule still holds afterwards
+// (a document with a fault keeps exactly that fault).  They add shapes which sit next to a rule without
+// breaking it: ancestors shared by two branches, several placeholders in one path segment beside a
+// single-placeholder sibling, a literal segment at the position of a placeholder, own properties beside allOf,
+// operations without an id.
+var Enrichments = []string{"diamond-ancestry", "deep-diamond-ancestry", "multi-placeholder-siblings", "literal-X-segment", "own-properties-beside-allof", "operation-without-id"}
+
+// Enrich applies one enrichment; false when the document has no site for it.
+func (g *SpecGen) Enrich(kind string) bool {
+	doc := g.Doc
+	defs, _ := doc["definitions"].(map[string]any)
+	paths, _ := doc["paths"].(map[string]any)
+	if defs == nil || paths == nil {
+		return false
+	}
+	ref := func(n string) map[string]any { return map[string]any{"$ref": "#/definitions/" + n} }
+	own := func(p string) map[string]any {
+		return map[string]any{"type": "object", "properties": map[string]any{p: map[string]any{"type": "string"}}}
+	}
+	okResp := func() map[string]any { return map[string]any{"200": map[string]any{"description": "ok"}} }
+	pathParam := func(n string) map[string]any {
+		return map[string]any{"name": n, "in": "path", "required": true, "type": "string"}
+	}
+	switch kind {
+	case "diamond-ancestry":
+		a, b, c, d := "DiaA"+g.Tag, "DiaB"+g.Tag, "DiaC"+g.Tag, "DiaD"+g.Tag
+		defs[d] = map[string]any{"type": "object"}
+		defs[b] = map[string]any{"allOf": []any{ref(d), own("pb")}}
+		defs[c] = map[string]any{"allOf": []any{ref(d), own("pc")}}
+		defs[a] = map[string]any{"allOf": []any{ref(b), ref(c), own("pa")}}
+		return true
+	case "deep-diamond-ancestry":
+		a, b, c, d, e := "DiaA"+g.Tag, "DiaB"+g.Tag, "DiaC"+g.Tag, "DiaD"+g.Tag, "DiaE"+g.Tag
+		defs[e] = map[string]any{"type": "object", "description": "root of the lattice"}
+		defs[d] = map[string]any{"allOf": []any{ref(e)}}
+		defs[b] = map[string]any{"allOf": []any{ref(d), own("pb")}}
+		defs[c] = map[string]any{"allOf": []any{own("pc"), ref(d), ref(e)}}
+		defs[a] = map[string]any{"allOf": []any{ref(b), ref(c)}}
+		return true
+	case "multi-placeholder-siblings":
+		m := g.R.Pick("get", "put", "delete")
+		base := "/mp" + g.Tag
+		type pair struct {
+			p1, p2 string
+			n1, n2 []string
+		}
+		pr := []pair{
+			{base + "/{from}-{to}", base + "/{id}", []string{"from", "to"}, []string{"id"}},
+			{base + "/{name}.{ext}", base + "/{owner}:{name}", []string{"name", "ext"}, []string{"owner", "name"}},
+			{base + "/a/{x}{y}/b", base + "/a/{z}/b", []string{"x", "y"}, []string{"z"}},
+		}[g.R.Intn(3)]
+		mk := func(names []string, id string) map[string]any {
+			var ps []any
+			for _, n := range names {
+				ps = append(ps, pathParam(n))
+			}
+			return map[string]any{m: map[string]any{"operationId": id + g.Tag, "parameters": ps, "responses": okResp()}}
+		}
+		paths[pr.p1] = mk(pr.n1, "mpOne")
+		paths[pr.p2] = mk(pr.n2, "mpTwo")
+		return true
+	case "literal-X-segment":
+		m := g.R.Pick("get", "put", "delete")
+		base := "/lx" + g.Tag
+		paths[base+"/{id}"] = map[string]any{m: map[string]any{"operationId": "lxOne" + g.Tag, "parameters": []any{pathParam("id")}, "responses": okResp()}}
+		paths[base+"/X"] = map[string]any{m: map[string]any{"operationId": "lxTwo" + g.Tag, "responses": okResp()}}
+		return true
+	case "own-properties-beside-allof":
+		base := g.defNames[0]
+		defs["Beside"+g.Tag] = map[string]any{"allOf": []any{ref(base)}, "properties": map[string]any{"besideOwn" + g.Tag: map[string]any{"type": "string"}}}
+		return true
+	case "operation-without-id":
+		paths["/noid"+g.Tag] = map[string]any{"get": map[string]any{"responses": okResp()}, "delete": map[string]any{"responses": okResp()}}
+		return true
+	}
+	return false
 }
